@@ -184,7 +184,7 @@ theorem q_run_pops (b : Bool) (op : Op) (n : Nat) (s : LQ) (hs : s.ctrl = []) (h
     | cons x r =>
       have h1 : stepPipe Shape.expected b s op = ({ s with req := r }, .val x) := by
         rcases hop with ⟨rfl, hc⟩ | rfl <;>
-          simp [stepPipe, popNow, takeFront, orBlock, LQ.isEmpty, Shape.expected, hs, hr, *]
+          simp [stepPipe, popNow, takeFront, orBlock, LQ.isEmpty, Shape.expected, *]
       simp only [List.replicate_succ, runOps, h1]
       rw [ih { s with req := r } hs (by rw [hr] at hn; simp at hn ⊢; omega) (by
         rcases hop with ⟨h, hc⟩ | h
